@@ -38,7 +38,10 @@ pub fn judge_fault(role: Role, base: &Outcome, o: &Outcome) -> Option<(&'static 
                 Role::Reader => Ok(v) == base.result.as_ref(),
             };
             if complete {
-                None
+                // every k < N makes one operation of the fault-free run fail, and the property says the
+                // call returns an error in that case - a success is only tolerable if the library can
+                // not have observed the failure at all, which does not happen under fail-stop
+                Some(("ok-after-fault-complete", "returns Ok although a stream operation failed (the transferred data happens to be complete)".to_string()))
             } else if role == Role::Writer {
                 Some(("ok-after-fault", format!("returns Ok although the output is incomplete ({} of {} bytes identical prefix, image length {})", o.image.iter().zip(base.image.iter()).take_while(|(a, b)| a == b).count(), base.image.len(), o.image.len())))
             } else {
